@@ -95,6 +95,9 @@ var nsBuild, nsCase atomic.Int64
 type runner struct {
 	rep *vfutil.Report
 	wk  *worker
+	// the byte sweeps deliver thousands of rejected batches to one tree: no valid follow-up add
+	// (which would force a new context) after each of them
+	noFollowUp bool
 }
 
 // buildContext replays the build steps of a context on fresh real objects.
@@ -111,7 +114,7 @@ func (r *runner) buildContext(c *ctxFile, flavour string) (tw *treeWorld, ok boo
 	}
 	tw = newTreeWorld(r.wk, aw, c.Kind, c.Filt, flavour)
 	next := 2
-	if c.Kind == "reduced" {
+	if c.Kind == "reduced" || c.Kind == "grown" {
 		next = 3
 	}
 	for _, s := range c.Steps {
@@ -136,9 +139,15 @@ func (r *runner) buildContext(c *ctxFile, flavour string) (tw *treeWorld, ok boo
 		}
 		m := member{Id: next, Kind: "ch", Au: s.Au, Named: s.Au, Cite: s.Cite, Par: heads, Snap: tw.rev[before.root], CidOk: true, SigOk: true}
 		raw := tw.renderPlain(m)
-		tw.tree.Lock()
-		res, err := tw.tree.AddRawChanges(bg, objecttree.RawChangesPayload{NewHeads: []string{raw.Id}, RawChanges: []*treechangeproto.RawTreeChangeWithId{raw}})
-		tw.tree.Unlock()
+		var (
+			res objecttree.AddResult
+			err error
+		)
+		callCode("AddRawChanges", func() {
+			tw.tree.Lock()
+			defer tw.tree.Unlock()
+			res, err = tw.tree.AddRawChanges(bg, objecttree.RawChangesPayload{NewHeads: []string{raw.Id}, RawChanges: []*treechangeproto.RawTreeChangeWithId{raw}})
+		})
 		if err != nil || len(res.Added) != 1 {
 			r.rep.DriftNote("context %s: parent by %s citing %d predicted accepted, real tree said %v (added %d)", c.key(), s.Au, s.Cite, err, len(res.Added))
 			return tw, false
@@ -213,6 +222,46 @@ func eqInts(a, b []int) bool {
 	return true
 }
 
+// renderBatch turns the members of a case into real raw changes (the candidate mutated as its
+// class says) and binds their specification ids to the real ids.
+func (tw *treeWorld) renderBatch(cs *caseRec, sub int) (batch []*treechangeproto.RawTreeChangeWithId, what string, candR reading) {
+	what = "unchanged"
+	for k, m := range cs.B {
+		var raw *treechangeproto.RawTreeChangeWithId
+		if k == cs.D.Pos && m.Tw != 0 {
+			// the signature-less twin of the change unmarshalled just before: the previous member
+			// of this batch or the change delivered last to this tree
+			var genuine *treechangeproto.RawTreeChangeWithId
+			for j := 0; j < k; j++ {
+				if cs.B[j].Id == m.Tw {
+					genuine = batch[j]
+				}
+			}
+			if genuine == nil {
+				sc, err := tw.store.Get(bg, tw.realId(m.Tw))
+				if err != nil {
+					broken("twin: genuine change %d not in storage: %v", m.Tw, err)
+				}
+				genuine = sc.RawTreeChangeWithId()
+			}
+			raw, what = twinOf(genuine, sub)
+			candR = tw.read(raw.Id, raw.RawChange)
+		} else {
+			base := tw.renderPlain(m)
+			raw = base
+			if k == cs.D.Pos {
+				raw, what = tw.mutate(m, cs.D.M, sub, base)
+				candR = tw.read(raw.Id, raw.RawChange)
+			}
+		}
+		if cs.D.M != "idDup" || k != cs.D.Pos {
+			tw.bind(m.Id, raw.Id)
+		}
+		batch = append(batch, raw)
+	}
+	return
+}
+
 // modes of delivery
 var modes = []string{"raw", "raw", "raw", "updater-ok", "reverse", "updater-err", "raw", "reverse"}
 
@@ -239,23 +288,8 @@ func (r *runner) runCase(c *ctxFile, tw *treeWorld, cs *caseRec, mode string, su
 			tw.rev[v] = k
 		}
 	}()
-	var (
-		batch []*treechangeproto.RawTreeChangeWithId
-		what  = "unchanged"
-		candR reading
-	)
-	for k, m := range cs.B {
-		base := tw.renderPlain(m)
-		raw := base
-		if k == cs.D.Pos {
-			raw, what = tw.mutate(m, cs.D.M, sub, base)
-			candR = tw.read(raw.Id, raw.RawChange)
-		}
-		if cs.D.M != "idDup" || k != cs.D.Pos {
-			tw.bind(m.Id, raw.Id)
-		}
-		batch = append(batch, raw)
-	}
+	batch, what, candR := tw.renderBatch(cs, sub)
+	tw.touched = true
 	// the rendering must realise the class the specification talks about; a byte flip that
 	// happens to leave a still-authentic change is delivered too, but only the oracles judge it
 	cand := cs.B[cs.D.Pos]
@@ -335,6 +369,9 @@ func (r *runner) runCase(c *ctxFile, tw *treeWorld, cs *caseRec, mode string, su
 		}
 	}
 	tw.tree.Unlock()
+	if strings.Contains(after.from, "<not-held>") {
+		r.rep.Violate("iterated-but-not-held"+tag, "IterateRoot yields a change for which HasChanges is false"+info, rp())
+	}
 	// a rejected change is no foothold: a valid change built on it cannot attach either
 	if err != nil && cs.D.M != "idDup" {
 		child := tw.buildChange("W", tw.aw.recId(tw.aw.n()), []string{batch[cs.D.Pos].Id}, after.root, false)
@@ -350,6 +387,36 @@ func (r *runner) runCase(c *ctxFile, tw *treeWorld, cs *caseRec, mode string, su
 			after = after2
 		}
 		r.rep.AddExtra("child_of_rejected_probes", 1)
+	}
+	// life goes on after a rejected batch: the next valid change (W, newest record, on the heads) is
+	// taken, becomes the only head, and the tree iterates exactly what it iterated before plus it
+	if err != nil && diffNoOp(before, after) == "" && !r.noFollowUp {
+		next := tw.buildChange("W", tw.aw.recId(tw.aw.n()), after.heads, after.root, false)
+		var (
+			res3 objecttree.AddResult
+			err3 error
+		)
+		callCode("AddRawChanges(after a rejected batch)", func() {
+			tw.tree.Lock()
+			defer tw.tree.Unlock()
+			res3, err3 = tw.tree.AddRawChanges(bg, objecttree.RawChangesPayload{NewHeads: []string{next.Id}, RawChanges: []*treechangeproto.RawTreeChangeWithId{next}})
+		})
+		after3 := tw.observe()
+		for _, f := range tw.checkHeld(after3, &after) {
+			r.rep.Violate(f.key+"|add-after-rejected"+tag, f.desc+info, rp())
+		}
+		want := append(append([]string{}, after.iter...), next.Id)
+		sort.Strings(want)
+		got := append([]string{}, after3.iter...)
+		sort.Strings(got)
+		if err3 != nil || len(res3.Added) != 1 || strings.Join(after3.heads, ",") != next.Id || strings.Join(got, ",") != strings.Join(want, ",") ||
+			strings.Contains(after3.from, "<not-held>") {
+			r.rep.Violate("add-after-rejected-batch"+tag, fmt.Sprintf("after the rejected batch a valid change on the heads gave err=%v added=%d heads=%d iterated=%d (expected %d)",
+				err3, len(res3.Added), len(after3.heads), len(got), len(want))+info, rp())
+		}
+		r.rep.AddExtra("add_after_rejected_probes", 1)
+		r.rep.AddSteps(1)
+		return true
 	}
 	if f := tw.checkFaithful(after); f != nil && !strings.HasPrefix(f.key, "perm-history-unfaithful") {
 		// (the history itself is checked after every ACL append while the context is built)
@@ -435,17 +502,7 @@ func (r *runner) validateRawTree(c *ctxFile, tw *treeWorld, cs *caseRec, sub int
 	for k, v := range tw.ids {
 		saved[k] = v
 	}
-	var batch []*treechangeproto.RawTreeChangeWithId
-	for k, m := range cs.B {
-		raw := tw.renderPlain(m)
-		if k == cs.D.Pos {
-			raw, _ = tw.mutate(m, cs.D.M, sub, raw)
-		}
-		if cs.D.M != "idDup" || k != cs.D.Pos {
-			tw.bind(m.Id, raw.Id)
-		}
-		batch = append(batch, raw)
-	}
+	batch, _, _ := tw.renderBatch(cs, sub)
 	tw.ids = saved
 	tw.rev = map[string]int{}
 	for k, v := range saved {
@@ -460,7 +517,9 @@ func (r *runner) validateRawTree(c *ctxFile, tw *treeWorld, cs *caseRec, sub int
 		broken("open scratch store: %v", err)
 	}
 	defer db.Close()
-	err = objecttree.ValidateRawTree(treestorage.TreeStorageCreatePayload{RootRawChange: tw.root, Changes: changes, Heads: heads}, tw.aw.acl, db)
+	callCode("ValidateRawTree", func() {
+		err = objecttree.ValidateRawTree(treestorage.TreeStorageCreatePayload{RootRawChange: tw.root, Changes: changes, Heads: heads}, tw.aw.acl, db)
+	})
 	r.rep.AddExtra("validate_raw_tree_calls", 1)
 	if err != nil {
 		return
@@ -498,6 +557,18 @@ func (r *runner) runContext(c *ctxFile, seed int64, maxCases int) {
 		idx = idx[:maxCases]
 		sort.Ints(idx)
 	}
+	defer func() {
+		if p := recover(); p != nil {
+			cp, ok := p.(codePanic)
+			if !ok {
+				panic(p)
+			}
+			cc := *c
+			cc.Cases = nil
+			r.rep.Violate("panic-in-"+cp.where, fmt.Sprintf("the code under test panicked in %s: %v [context %s]", cp.where, cp.val, c.key()),
+				replayObj{Ctx: cc, Flavour: flavour, What: "context"})
+		}
+	}()
 	tw, ok := r.buildContext(c, flavour)
 	r.rep.AddReplayed(1)
 	if !ok {
@@ -505,19 +576,28 @@ func (r *runner) runContext(c *ctxFile, seed int64, maxCases int) {
 	}
 	for n, i := range idx {
 		cs := &c.Cases[i]
+		if cs.D.M == "twin" && cs.D.Pos == 0 && tw.touched {
+			// "unmarshalled just before" = the last delivery of the context: nothing in between
+			if tw, ok = r.buildContext(c, flavour); !ok {
+				return
+			}
+		}
 		mode := modes[(int(seed)+i)%len(modes)]
 		sub := int(seed)*31 + i*7
 		r.rep.Case(fmt.Sprintf("%s|%s|%s|%s", c.key(), cs.D, mode, flavour))
 		if n < 1 {
 			r.rep.Sample(map[string]any{"context": c.key(), "batch": cs.D.String(), "mode": mode, "spec_verdict": cs.V, "property_verdict": cs.P})
 		}
-		if r.runCase(c, tw, cs, mode, sub, flavour) {
+		// the valid follow-up add after a rejected batch costs a new context: after the last case of
+		// every context and after every fifth case
+		r.noFollowUp = n != len(idx)-1 && (int(seed)+i)%5 != 0
+		if r.runCase(c, tw, cs, mode, sub, flavour) && n != len(idx)-1 {
 			tw, ok = r.buildContext(c, flavour)
 			if !ok {
 				return
 			}
 		}
-		if (int(seed)+i)%23 == 0 && !c.Filt {
+		if (int(seed)+i)%23 == 0 && !c.Filt && n != len(idx)-1 {
 			r.validateRawTree(c, tw, cs, sub, flavour)
 		}
 	}
@@ -557,6 +637,11 @@ func loadContexts(dirs string) ([]*ctxFile, error) {
 
 func guard(t *testing.T, rep *vfutil.Report) {
 	if p := recover(); p != nil {
+		if cp, ok := p.(codePanic); ok {
+			rep.Violate("panic-in-"+cp.where, fmt.Sprintf("the code under test panicked in %s: %v", cp.where, cp.val), nil)
+			rep.Save(true)
+			return
+		}
 		if hb, ok := p.(harnessBroken); ok {
 			t.Errorf("harness broken: %s", hb.msg)
 		} else {
